@@ -152,6 +152,7 @@ type loopAct struct {
 	At         string         `json:"at"`
 	Wipe       bool           `json:"wipe"`
 	Start      string         `json:"start"`
+	Other      bool           `json:"other"`
 	Img        map[string]Ver `json:"img"`
 }
 
@@ -164,6 +165,10 @@ type loopStep struct {
 	PC         string         `json:"pc"`
 	LastSynced int            `json:"lastSynced"`
 	WaitingOwn bool           `json:"waitingOwn"`
+	WaitingOth bool           `json:"waitingOther"`
+	TListing   bool           `json:"tListing"`
+	TStore     bool           `json:"tStore"`
+	TPass      bool           `json:"tPass"`
 	Uncaptured []int          `json:"uncaptured"`
 	NBucket    int            `json:"nbucket"`
 	CommittedN int            `json:"committedN"`
@@ -174,6 +179,7 @@ type loopInput struct {
 	Native     bool         `json:"native"`
 	NKeys      int          `json:"nkeys"`
 	RetryCount int          `json:"retryCount"`
+	OnlyOnce   bool         `json:"onlyOnce"`
 	Behaviours [][]loopStep `json:"behaviours"`
 }
 
@@ -200,6 +206,7 @@ type loopRunner struct {
 	injected      map[string]bool
 	prevNewest    map[string]Ver
 	oldSnapName   string
+	otherSnapName string // newest snapshot of the other instance ("remote2") lying in the bucket from the start
 	realFuture    uint64
 	heldRelease   chan struct{}
 	heldDone      chan error
@@ -252,6 +259,9 @@ func cmdLoop(args []string) error {
 
 const oneKeyDBI = "data"
 
+// otherInstance is the instance whose snapshot lies in the bucket from the start (the hook's updates come from "remote1").
+const otherInstance = "remote2"
+
 func (lr *loopRunner) newSyncer() error {
 	in := lr.w.Insts[1]
 	c := lr.w.config(in.Name)
@@ -261,6 +271,7 @@ func (lr *loopRunner) newSyncer() error {
 	c.LMDBPollInterval = time.Millisecond
 	c.MemoryDecompressedSnapshots = 3
 	c.MemoryDownloadedSnapshots = 3
+	c.OnlyOnce = lr.in.OnlyOnce
 	h := hooks.New()
 	lr.updates = make(chan snapshot.Update, 8)
 	ch := lr.updates
@@ -421,9 +432,9 @@ func runLoopBehaviour(R *Result, in loopInput, beh []loopStep, bi int) error {
 	lr.fb = &faultBucket{Interface: memory.New(), loadGate: map[string]chan struct{}{}}
 	w.Bucket = lr.fb
 	// real timestamps used by pre-existing data
-	w.tsAbs[1], w.tsAbs[2], w.tsAbs[3], w.tsAbs[4] = 1, 2, 3, 4
+	w.tsAbs[1], w.tsAbs[2], w.tsAbs[3], w.tsAbs[4], w.tsAbs[5] = 1, 2, 3, 4, 5
 	w.tsAbs[lr.realFuture] = 50
-	w.maxReal = 4
+	w.maxReal = 5
 	w.DynTS = true // real stamps (LS captures, native application writes) are named by the model's clock
 	if err := w.AddInst(1, false); err != nil {
 		return err
@@ -472,6 +483,19 @@ func runLoopBehaviour(R *Result, in loopInput, beh []loopStep, bi int) error {
 				lr.fb.loadGate[lr.oldSnapName] = make(chan struct{})
 				lr.ownExisted = true
 				lr.prevNewest = map[string]Ver{"1": {TS: 4, Val: 2}}
+			}
+			if err == nil && a.Other {
+				upd := lr.buildUpdate(map[string]Ver{"1": {TS: 5, Val: 1}}, otherInstance, now-uint64(2*time.Hour))
+				data, _, e := snapshot.DumpData(upd.Snapshot)
+				if e != nil {
+					return e
+				}
+				lr.otherSnapName = upd.NameInfo.FullName
+				if e := lr.fb.Interface.Store(context.Background(), lr.otherSnapName, data); e != nil {
+					return e
+				}
+				lr.fb.loadGate[lr.otherSnapName] = make(chan struct{})
+				lr.injected["1="+Ver{TS: 5, Val: 1}.String()] = true
 			}
 			if err != nil {
 				return err
@@ -599,6 +623,25 @@ func runLoopBehaviour(R *Result, in loopInput, beh []loopStep, bi int) error {
 				bad("conformance", "own-not-delivered", si, nil, "the receiver did not deliver the own snapshot %s within 3s", name)
 				return nil
 			}
+		case "deliverother":
+			lr.fb.mu.Lock()
+			if ch := lr.fb.loadGate[lr.otherSnapName]; ch != nil {
+				close(ch)
+				delete(lr.fb.loadGate, lr.otherSnapName)
+			}
+			lr.fb.mu.Unlock()
+			ok := false
+			for i := 0; i < 3000 && lr.recv != nil; i++ {
+				if _, has := lr.recv.VerifPending()[otherInstance]; has {
+					ok = true
+					break
+				}
+				time.Sleep(time.Millisecond)
+			}
+			if !ok {
+				bad("conformance", "other-not-delivered", si, nil, "the receiver did not deliver the other instance's snapshot %s within 3s", lr.otherSnapName)
+				return nil
+			}
 		case "crash":
 			if lr.done != nil {
 				select {
@@ -647,6 +690,9 @@ func runLoopBehaviour(R *Result, in loopInput, beh []loopStep, bi int) error {
 				lr.fb.loadGate[name] = make(chan struct{})
 				lr.ownExisted = true
 			}
+			if lr.otherSnapName != "" {
+				lr.fb.loadGate[lr.otherSnapName] = make(chan struct{})
+			}
 			lr.fb.mu.Unlock()
 			w.Insts[1].S = nil
 		case "run":
@@ -692,8 +738,20 @@ func runLoopBehaviour(R *Result, in loopInput, beh []loopStep, bi int) error {
 				lr.done = nil
 				break
 			}
+			if a.To == "exit" {
+				if !ev.Exit || ev.Err != nil {
+					bad("C16", "only-once-exit", si, nil, "only_once: the specification says the loop returns now without error; the real loop: parked at %q, exit=%v, err=%v", ev.Point, ev.Exit, ev.Err)
+					return nil
+				}
+				lr.done = nil
+				break
+			}
 			if ev.Exit {
-				bad("conformance", "loop-exited", si, nil, "real loop returned (%v), specification parks at %s", ev.Err, a.To)
+				cls, prop := "loop-exited", "conformance"
+				if in.OnlyOnce && ev.Err == nil {
+					cls, prop = "only-once-exit", "C16"
+				}
+				bad(prop, cls, si, nil, "real loop returned (%v), specification parks at %s", ev.Err, a.To)
 				return nil
 			}
 			if ev.Point != a.To {
@@ -731,6 +789,11 @@ func runLoopBehaviour(R *Result, in loopInput, beh []loopStep, bi int) error {
 				if toInt64(ev.Args[0]) != int64(st.LastSynced) {
 					bad("conformance", "args", si, nil, "lastSyncedTxnID %v, specification %d", ev.Args[0], st.LastSynced)
 				}
+				if ev.Point == "loop.sleep" && len(ev.Args) > 1 {
+					if done, _ := ev.Args[1].(bool); done != (!st.WaitingOwn && !st.WaitingOth) {
+						bad("conformance", "waiting", si, nil, "waitingForInstances.Done() = %v, specification: waiting for own %v, for the other instance %v", done, st.WaitingOwn, st.WaitingOth)
+					}
+				}
 			case "check.read":
 				lr.infoAtCheck = toInt64(ev.Args[0])
 				if toInt64(ev.Args[0]) != int64(a.Info) || toInt64(ev.Args[1]) != int64(a.LastSynced) {
@@ -753,6 +816,13 @@ func runLoopBehaviour(R *Result, in loopInput, beh []loopStep, bi int) error {
 		}
 		if lr.heldRelease != nil {
 			continue // the application's transaction is still open: its effect is not visible yet
+		}
+		// ---- readiness (status/starttracker)
+		if s := w.Insts[1].S; s != nil && a.Name == "run" && lr.done != nil {
+			l, sto, p := s.VerifStartState()
+			if l != st.TListing || sto != st.TStore || p != st.TPass {
+				bad("readiness", "start-tracker", si, nil, "start tracker (listing, store, pass) = (%v, %v, %v), specification (%v, %v, %v)", l, sto, p, st.TListing, st.TStore, st.TPass)
+			}
 		}
 		// ---- state comparison
 		nowAbs := st.Clock
